@@ -186,7 +186,11 @@ func c02ValidateChain(r *Run, fn *ssa.Function) {
 		// the parsed chain (the one compared with the verified path) is filled in the parse loop with each
 		// parsed certificate: chain = append(chain, cert), or chain[i] = cert in a chain of len(rawChain)
 		fills, makes, built := sliceFills(CallArgs(ce)[0])
-		r.Check("ValidateChain:chain-built-here", built, r.Where(ce), "the parsed chain "+clipStr(chain, 100)+" is built by single-element appends / index assignments")
+		bd := "the parsed chain " + clipStr(chain, 100) + " is built by single-element appends / index assignments"
+		if !built {
+			bd = "the parsed chain " + clipStr(chain, 100) + " that is compared with the verified path is not built by single-element appends / index assignments alone (it is also cut, replaced or written some other way): it need not hold every submitted certificate"
+		}
+		r.Check("ValidateChain:chain-built-here", built, r.Where(ce), bd)
 		var app []ssa.Instruction
 		for _, f := range fills {
 			if h == nil || loopHeaderOf(f.In.Block()) != h {
